@@ -11,13 +11,13 @@ use std::rc::Rc;
 
 pub struct C16Includes;
 
-struct SplitState {
-    counter: u32,
-    max_files: u32,
-    made: u32,
-    max_depth_reached: u32,
-    decoys: Vec<(String, String)>, // (cwd-relative path, content)
-    syntax: String,
+pub struct SplitState {
+    pub counter: u32,
+    pub max_files: u32,
+    pub made: u32,
+    pub max_depth_reached: u32,
+    pub decoys: Vec<(String, String)>, // (cwd-relative path, content)
+    pub syntax: String,
 }
 
 fn dir_of(path: &str) -> String {
@@ -36,7 +36,7 @@ fn first_node_idx(list: &[Item]) -> usize {
     idx
 }
 
-fn make_include(cx: &mut Cx, list: &mut Vec<Item>, first: usize, dir: &str, depth: u32, st: &mut SplitState, in_ifdata: bool) {
+pub fn make_include(cx: &mut Cx, list: &mut Vec<Item>, first: usize, dir: &str, depth: u32, st: &mut SplitState, in_ifdata: bool) {
     let n = list.len() - first;
     // range [i, j) of the node run; empty ranges give empty include files
     let i = first + cx.tape.draw(n as u64 + 1) as usize;
@@ -94,7 +94,7 @@ fn make_include(cx: &mut Cx, list: &mut Vec<Item>, first: usize, dir: &str, dept
     list.insert(i, Item::Inc(Box::new(inc)));
 }
 
-fn split_list(cx: &mut Cx, list: &mut Vec<Item>, first: usize, dir: &str, depth: u32, st: &mut SplitState, chance16: u64, in_ifdata: bool) {
+pub fn split_list(cx: &mut Cx, list: &mut Vec<Item>, first: usize, dir: &str, depth: u32, st: &mut SplitState, chance16: u64, in_ifdata: bool) {
     if st.made < st.max_files && cx.tape.chance(chance16, 16) {
         make_include(cx, list, first, dir, depth, st, in_ifdata);
         // two includes back to back, sometimes
@@ -124,7 +124,7 @@ fn split_list(cx: &mut Cx, list: &mut Vec<Item>, first: usize, dir: &str, depth:
 }
 
 /// move a part of the A2ML text into an A2ML-level include file
-fn split_a2ml(cx: &mut Cx, items: &mut [Item], dir: &str, st: &mut SplitState) -> bool {
+pub fn split_a2ml(cx: &mut Cx, items: &mut [Item], dir: &str, st: &mut SplitState) -> bool {
     for it in items.iter_mut() {
         if let Item::Node(n) = it {
             if n.tag == "A2ML" {
@@ -172,7 +172,7 @@ fn split_a2ml(cx: &mut Cx, items: &mut [Item], dir: &str, st: &mut SplitState) -
     false
 }
 
-fn install_tree(fs: &Rc<SimFs>, cx: &mut Cx, root: &RenderedFile) {
+pub fn install_tree(fs: &Rc<SimFs>, cx: &mut Cx, root: &RenderedFile) {
     for f in root.all_files() {
         // included A2L files are sometimes stored in another encoding than the main file
         let bytes = if f.path != root.path && !f.path.ends_with(".aml") && cx.tape.chance(1, 8) && f.text.as_bytes().first().is_some_and(u8::is_ascii) {
@@ -185,7 +185,7 @@ fn install_tree(fs: &Rc<SimFs>, cx: &mut Cx, root: &RenderedFile) {
     }
 }
 
-fn total_bytes(fs: &Rc<SimFs>) -> usize {
+pub fn total_bytes(fs: &Rc<SimFs>) -> usize {
     fs.snapshot_files().values().map(Vec::len).sum()
 }
 
